@@ -172,6 +172,8 @@ class CompMixin:
                 sub.bound = dict(shared["bound"])
                 sub.closures = dict(shared["closures"])
                 sub.caught = dict(shared["caught"])
+                sub.partials = self.partials        # partial / methodcaller / namedtuple tables are append-only: shared
+                sub.ntfields = self.ntfields
                 sub.outer_catch = catch
                 sub.decisions = list(decisions)
                 sub.pending = dict(decisions)
